@@ -60,6 +60,14 @@ def make_data(case, rng):
         if rng.random() < 0.5:
             rv[rng.randrange(ref.h), rng.randrange(ref.w)] = False
         sv[0, :] = rng.random() < 0.5
+    # near-collisions with a numeric nodata value: a valid pixel whose *scaled* value lies within a few 1e-6 (relative) of the
+    # nodata value without being equal to it must stay a valid pixel (power-of-two factors keep the scaling exact)
+    if case['pow2'] and case['src_nodata'] == -9999.0 and case['a'] != 1:
+        rr, cc = [(r_, c_) for r_ in range(src.h) for c_ in range(src.w) if sv[r_, c_]][src.w + 1 if sv.sum() > src.w + 1 else 0]
+        s[:, rr, cc] = -9999.05 / case['a']
+    if case['pow2'] and case['ref_nodata'] == -9999.0 and case['c'] != 1:
+        rr, cc = [(r_, c_) for r_ in range(ref.h) for c_ in range(ref.w) if rv[r_, c_]][ref.w + 1]
+        r[:, rr, cc] = -9999.05 / case['c']
     return src, ref, s, r, sv, rv
 
 
